@@ -452,7 +452,15 @@ class Analysis:
         if isinstance(key, tuple) and key[0] == "elem":
             a = st.arr.get(key[1])
             if a is not None and 0 <= key[2] < len(a):
-                return a[key[2]]
+                iv = a[key[2]]
+                sy = st.sym.get(key)
+                if sy is not None and sy[0] == "same" and iv is not None:
+                    other = self.get(st, sy[2])     # the element still holds the value of that variable
+                    if other is not None:
+                        m = meet(iv, other)
+                        if m[0] <= m[1]:
+                            iv = m
+                return iv
             return None
         if key in st.iv:
             return st.iv[key]
@@ -490,7 +498,7 @@ class Analysis:
             del st.bf[d]
         for k in [k for k, v in st.sym.items() if key_root(v[2]) == l]:
             del st.sym[k]
-        for k in [k for k, v in st.rel.items() if (v[0] in ("cast", "inrange") and key_root(v[1]) == l)
+        for k in [k for k, v in st.rel.items() if (v[0] in ("cast", "inrange", "satsub") and key_root(v[1]) == l)
                   or (v[0] in ("ordcmp", "orddiscr") and (key_root(v[1]) == l or key_root(v[2]) == l))
                   or (v[0] in ("iterof", "enumof") and v[1][0] == "len" and key_root(v[1]) == l)]:
             del st.rel[k]
@@ -572,9 +580,9 @@ class Analysis:
                 lo, hi = max(ix[0], 0), min(ix[1], len(st.arr[l]) - 1)
                 if lo > hi:
                     return None, None
-                iv = st.arr[l][lo]
+                iv = self.get(st, ("elem", l, lo))
                 for j in range(lo + 1, hi + 1):
-                    iv = join(iv, st.arr[l][j])
+                    iv = join(iv, self.get(st, ("elem", l, j)))
                 return iv, (("elem", l, lo) if lo == hi else None)
         return None, None
 
@@ -795,8 +803,14 @@ class Analysis:
                     lo, hi = 0, len(a) - 1
                 else:
                     lo, hi = max(ix[0], 0), min(ix[1], len(a) - 1)
+                for j in range(lo, hi + 1):
+                    st.sym.pop(("elem", l, j), None)
                 if lo == hi:
                     a[lo] = val
+                    if rv["r"] == "use" and rv["a"].get("o") in ("copy", "move"):
+                        sk_ = self.operand_key(st, rv["a"])
+                        if sk_ is not None and not is_c(sk_) and key_root(sk_) != l and key_root(sk_) not in self.escaped:
+                            st.sym[("elem", l, lo)] = ("same", 0, sk_)   # limbs[c] = x: remember which variable it holds
                 else:
                     for j in range(lo, hi + 1):
                         a[j] = join(a[j], val)
@@ -823,7 +837,8 @@ class Analysis:
                     arr.append(iv if iv is not None else erng)
             elif rv["r"] == "use" and rv["a"].get("o") in ("copy", "move") and not rv["a"]["p"] \
                     and rv["a"]["l"] in st.arr:
-                arr = list(st.arr[rv["a"]["l"]])
+                src_ = rv["a"]["l"]
+                arr = [self.get(st, ("elem", src_, j)) for j in range(len(st.arr[src_]))]   # with what is known now
             self.kill_local(st, l)
             if arr is not None and len(arr) == n:
                 st.arr[l] = arr
@@ -899,6 +914,9 @@ class Analysis:
                             ge_b, st_b = self.uppers(st, kb)
                             if ka == kb or ka in ge_b:
                                 ex = (max(ex[0], 1 if ka in st_b else 0), ex[1])   # b <= a / b < a
+                            rb_ = st.rel.get(kb) if isinstance(kb, int) else None
+                            if rb_ is not None and rb_[0] == "satsub" and rb_[1] == ka:
+                                ex = (min(a[0], rb_[2]), min(a[1], rb_[2]))        # a - a.saturating_sub(c) == min(a, c)
                             sa = st.sym.get(ka) if not is_c(ka) else None
                             if sa is not None and sa[0] == "sub":
                                 # A = C1 - i ;  i < C - B (no wrap)  =>  A - B >= C1 - C + 1
@@ -1012,6 +1030,9 @@ class Analysis:
                 ge_b, _s = self.uppers(st, kb)
                 if ka == kb or ka in ge_b:
                     iv = (max(0, a_[0] - b_[1]), a_[1] - b_[0])      # b <= a: no wrap-around
+                rb_ = st.rel.get(kb) if isinstance(kb, int) else None
+                if rb_ is not None and rb_[0] == "satsub" and rb_[1] == ka:
+                    iv = (min(a_[0], rb_[2]), min(a_[1], rb_[2]))    # a - a.saturating_sub(c) == min(a, c)
             if ka is not None and not is_c(ka) and b_ is not None and a_ is not None and b_[0] >= 0 and a_[0] >= b_[1]:
                 # result = a - c with c >= 0 and no wrap: every upper bound of a bounds the result (strictly if c >= 1);
                 # also covers the self-decrement `x = x - 1` (bounds that mention x itself are dropped)
@@ -1155,6 +1176,11 @@ class Analysis:
             b, _ = self.eval_operand(st, args[1])
             if a is not None and b is not None:
                 iv = (max(0, a[0] - b[1]), max(0, a[1] - b[0]))
+            ka_ = self.operand_key(st, args[0])
+            if ka_ is not None and not is_c(ka_) and key_root(ka_) != d:
+                min_le = [ka_]                       # a.saturating_sub(c) <= a
+                if b is not None and b[0] == b[1]:
+                    newrel = ("satsub", ka_, b[0])   # and a - result == min(a, c)
         elif name in self.KNOWN_RANGES:
             iv = self.KNOWN_RANGES[name]
         elif name == "core::mem::size_of" and not args:
@@ -1687,7 +1713,32 @@ class Analysis:
         return True
 
     def uppers(self, st, key):
-        """(keys known to be >= key, keys known to be > key)"""
+        """(keys known to be >= key, keys known to be > key), transitively: x <= y and y < z give x < z."""
+        ge1, st1 = self._uppers1(st, key)
+        ge, strict = set(ge1), set(st1)
+        work = [(k_, k_ in st1) for k_ in ge1]
+        seen = {key}
+        n = 0
+        while work and n < 64:
+            n += 1
+            k_, is_strict = work.pop()
+            if k_ in seen:
+                continue
+            seen.add(k_)
+            g2, s2 = self._uppers1(st, k_)
+            for z in g2:
+                if z == key:
+                    continue
+                ge.add(z)
+                zs = is_strict or z in s2
+                if zs:
+                    strict.add(z)
+                work.append((z, zs))
+        ge.discard(key)
+        strict.discard(key)
+        return frozenset(ge), frozenset(strict)
+
+    def _uppers1(self, st, key):
         if key is None or is_c(key):
             return frozenset(), frozenset()
         strict = st.ub.get(key, frozenset())
@@ -1960,6 +2011,7 @@ class Analysis:
         work = [0]
         inwork = {0}
         guard = 0
+        edge_out = {}
         while work:
             guard += 1
             if guard > 50000:
@@ -1967,11 +2019,30 @@ class Analysis:
             work.sort(key=lambda b: order.get(b, 1 << 30))
             bi = work.pop(0)
             inwork.discard(bi)
+            # out-states of this block replace its previous ones (an edge may have become infeasible)
+            touched = {s for (p_, s) in edge_out if p_ == bi}
+            for s in touched:
+                del edge_out[(bi, s)]
             for s, ns in self.edge_states(bi, self.entry[bi]):
+                prev = edge_out.get((bi, s))
+                edge_out[(bi, s)] = ns if prev is None else self.join_states(prev, ns, False)
+                touched.add(s)
+            for s in touched:
+                outs = [st_ for (p_, s_), st_ in edge_out.items() if s_ == s]
+                if not outs:
+                    continue
+                cand = outs[0].copy()
+                for st_ in outs[1:]:
+                    cand = self.join_states(cand, st_, False)
                 old = self.entry.get(s)
                 visits[s] = visits.get(s, 0) + 1
-                widen = s in heads and visits[s] > WIDEN_AFTER
-                new = self.join_states(old, ns, widen)
+                if s in heads and old is not None:
+                    # loop heads accumulate (and widen): this is what makes the iteration terminate
+                    new = self.join_states(old, cand, visits[s] > WIDEN_AFTER)
+                else:
+                    # every other block's entry is the join of the CURRENT out-states of its predecessors: facts of
+                    # earlier passes that no longer hold on any incoming edge do not linger
+                    new = cand
                 if old is None or not new.same(old):
                     self.entry[s] = new
                     if s not in inwork:
